@@ -302,7 +302,7 @@ pub fn run_c18(ctx: &Ctx) -> i32 {
 
     // ---- (1) canonical byte strings: round trip + validate
     // all strings of length 1 and 2 for every codec
-    let mut byte_sets: Vec<Vec<u8>> = vec![];
+    let mut byte_sets: Vec<Vec<u8>> = vec![vec![]];
     for a in 0..=255u8 {
         byte_sets.push(vec![a]);
     }
@@ -334,6 +334,11 @@ pub fn run_c18(ctx: &Ctx) -> i32 {
             .map(|chunk| {
                 let mut acc = Acc { evals: 0, outcomes: vec![] };
                 for b in chunk {
+                    // (the zero-length byte string: the Bech32 / Bech32m codecs encode it - prefix,
+                    // separator, checksum; cosmwasm-std's default codec refuses it by design)
+                    if b.is_empty() && matches!(c.api, Codec::Default(_)) {
+                        continue;
+                    }
                     roundtrip(ctx, &mut acc, c, b);
                 }
                 acc.outcomes.sort_unstable();
